@@ -1,9 +1,9 @@
 """C10 — the multiscale metric is finite SPD (planar embedding in 2-D) and meets the requested complexity."""
-from . import streams_metric, streams_gradation, streams_reconpar, cli
+from . import streams_metric, streams_gradation, streams_reconpar, streams_metricpipe, cli
 from .common import Stream
 
 ID = 'C10'
-PROPS_MODULE = ['Refine.Props.C10', 'Refine.Props.C10Gradation', 'Refine.Props.C10Par']
+PROPS_MODULE = ['Refine.Props.C10', 'Refine.Props.C10Gradation', 'Refine.Props.C10Par', 'Refine.Props.C10Pipe']
 
 
 def _gen_multiscale_mpi(rng, tier, np):
@@ -16,7 +16,8 @@ MULTISCALE_MPI = Stream('cli_multiscale_mpi', cli.cli_harness, None, _gen_multis
                         kind='oracle', np=[2, 3], nontrivial=lambda op, out: out.startswith('rc=0'), timeout=900)
 
 STREAMS = [streams_metric.COMPLEXITY, streams_metric.EIG, streams_metric.GAC, streams_gradation.SWEEP, streams_gradation.GAC,
-           streams_gradation.LP, cli.MULTISCALE, MULTISCALE_MPI, streams_reconpar.ROUNDOFF]
+           streams_gradation.LP, cli.MULTISCALE, MULTISCALE_MPI, streams_reconpar.ROUNDOFF,
+           streams_metricpipe.STAGES, streams_metricpipe.ARGV, streams_metricpipe.CLI_OPTS]
 
 EXPLANATION = (
     'Proved in Lean over the reals, about the executable model Refine/Model/Metric.lean (a statement-by-statement '
@@ -76,12 +77,43 @@ EXPLANATION = (
     'rank\'s stored mesh, every stored vertex, radius from the rank\'s own edges, then ref_node_ghost_dbl(recon, 6)): '
     'for every rank count and every distribution satisfying the structural invariant WorldOK, when the floor step '
     'succeeds on every rank the refresh completes and EVERY tensor held by EVERY rank - owned or ghost - is positive '
-    'definite (roundoffLimitPar_spd; ghost copies through C06Ghost.ghostRefresh_spec). Tie: stream reconpar_roundoff '
+    'definite (roundoffLimitPar_spd; ghost copies through C06Ghost.ghostRefresh_spec); and the floor itself does not '
+    'depend on the partition: entry i of the radius array is the minimum of the lengths of the cell edges at i (-1 '
+    'without an edge), a function of the SET of those lengths, so at a stored vertex all of whose cells are stored - '
+    'every owned vertex - the rank-local radius is the radius of the global mesh '
+    '(roundoff_radius_partition_independent). Tie: stream reconpar_roundoff '
     '(h_reconpar, np = 1, 2, 3): the real ref_recon_roundoff_limit on explicitly distributed 2-D and 3-D meshes with '
     'SPD / indefinite / singular / zero / tiny Hessians, every stored vertex compared bit for bit with the model; '
     'oracle: the output spectrum is the input spectrum raised to the floor 4e-12/r^2 of the GLOBAL shortest edge at '
     'the vertex (so a floor computed from a rank-local mesh size is seen), bit-identical to the one-rank run, ghost '
-    'copies equal to their owners.')
+    'copies equal to their owners. '
+    'Pipeline and option plumbing (Refine/Model/MetricPipe.lean, Props/C10Pipe.lean): ref_metric_lp after the '
+    'reconstruction (metricLp: floor, Lp scale with p_norm, limiter with aspect_ratio, gradation_at_complexity with '
+    'gradation and the target), hessian_multiscale (the --hessian path: abs value, floor, Lp scale, gradation at '
+    'complexity, no limiter), ref_metric_buffer and the 10 relaxations of ref_metric_buffer_at_complexity with the 2-D '
+    'branch of /repo cef0178 (bufferAtComplexity; second half of a relaxation = setComplexity), the argument scan of the '
+    'multiscale subcommand (multiscaleOptions: argv positions 2..5, ref_args_find = first occurrence, --norm-power / '
+    '--gradation / --aspect-ratio with a mandatory value and the usage exit, --hessian / --fixed-point / --buffer / '
+    '--uniform by presence, --pcd lenient, atoi / atof on decimal words as exact decimals) and the metric part of the '
+    'subcommand (multiscaleMetric: complexity > 1e-20 guard, driver selection, --buffer, the reported complexity). '
+    'Flag names, defaults, positions, the stage calls with their argument words, the buffer constants and the relaxation '
+    'count are regenerated from the C text on every run (Gen/MultiscaleOpts.lean) and pinned by '
+    'constants_of_the_c_text. Proved: in every modelled driver and in the subcommand for EVERY option combination the '
+    'last operation is the exact rescale applied to a field that is embedded on a 2-D grid '
+    '(metricLp_ends_with_rescale, bufferAtComplexity_ends_with_rescale, multiscaleMetric_ends_with_rescale), hence the '
+    'complexity equals the target and the embedding holds (metricLp_complexity, metricLp_twod_embedding, '
+    'hessianMultiscale_complexity, bufferAtComplexity_complexity, bufferAtComplexity_twod_embedding, '
+    'multiscaleMetric_report: the `actual complexity` line equals the request); SPD by composing the stage lemmas '
+    '(metricLp_spd, bufferAtComplexity_spd); the pre-cef0178 loop body loses the embedding '
+    '(bufRelaxLegacy_not_embedded); the option scan (multiscaleOptions_defaults, multiscaleOptions_sound: every field is a '
+    'function of its own flag only; multiscaleOptions_usage: the exact condition of the usage exit). Tie: '
+    'metricpipe_stages (the four stages called one by one with the field compared after each, AND the real ref_metric_lp '
+    'on the same Hessian through a hook on its ref_recon_hessian call; ref_metric_buffer, '
+    'ref_metric_buffer_at_complexity and its relaxations one by one), metricpipe_argv (the static multiscale() of '
+    'ref_subcommand.c called in process on generated argv vectors - every flag alone, all together, unusual order, '
+    'repeated, missing values, values that are flags, malformed numbers, shifted positionals - the metric file it '
+    'wrote compared bit for bit with multiscaleMetric(multiscaleOptions argv) on the Hessian it saw), '
+    'cli_multiscale_opts (the ref binary end to end on option scenarios, oracle of cli_multiscale).')
 
 ASSUMPTIONS = [
     'theorems hold in exact real arithmetic about the model; IEEE rounding is modelled (Float instance, bit-compared '
@@ -98,6 +130,19 @@ ASSUMPTIONS = [
     'relaxations converge is not claimed; that the unprojected sweep keeps m13 = m23 = 0 by itself is not proved '
     '(the C re-imposes the embedding after the sweep, which is what is proved)',
     'ref_metric_gradation_at_complexity_mixed (ref_metric_imply_non_tet inside the loop) is not modelled',
+    'pipeline: the multiscale subcommand has no --kexact / --interpolant / --axi option (its reconstruction is the '
+    'constant REF_RECON_L2PROJECTION, pinned from the C text); the --fixed-point and --uniform branches, --fun3d-mapbc / '
+    '--viscous-tags, ref_metric_lp_mixed, ref_metric_opt_goal and the belme drivers are NOT modelled (the option theorems '
+    'cover the flags --fixed-point and --uniform set, the metric theorems take both false; --uniform changes the '
+    'complexity by design); atof / atoi are modelled on decimal words only (no inf, nan, hexadecimal floats, overflow); '
+    'the positive-complexity hypothesis of the pipeline theorems is stated for exactly the fields whose rescale gives '
+    'the returned field; metricLp_spd takes the SPD-ness of the limiter output as a hypothesis (per vertex it is '
+    'limitAspectRatio_spd / limitAspectRatio2_spd_embedded) and bufferAtComplexity_spd positive eigenvalues from the '
+    'decompositions ref_metric_buffer takes (BufLoopOk); the ranks statement of the pipeline is tied end to end only '
+    '(cli_multiscale_mpi); the in-process oracle of metricpipe_stages states exact positive definiteness of the real '
+    'ref_metric_lp output for aspect-ratio limits 1..1e3 only: with the default limit (-1: eigenvalue ratio up to 1e12) and '
+    'singular Hessians the returned tensor can be indefinite at 1e-9 relative (rounding in the gradation intersections; '
+    'candidate finding findings/metricpipe-default-ar-conditioning, model and C agree bit for bit there)',
     'Hessian reconstruction (ref_recon_hessian: L2 projection / k-exact) is outside this property (C19); the abs-value '
     'and floor theorems need only orthonormal eigenvectors from ref_matrix_diag_m (proved), not an exact decomposition; '
     'a diag_m failure status is returned as is',
@@ -108,7 +153,8 @@ ASSUMPTIONS = [
     'parallel: the model is one rank\'s sum with ref_mpi_allsum as the identity; complexity_rank_sum covers the sum over '
     'ranks; ghost exchange (ref_node_ghost_dbl after every sweep) and the np > 1 run are covered end to end by '
     'cli_multiscale_mpi only: the gradation model is the one-rank sweep (no 2-rank world was modelled); the round-off '
-    'floor IS modelled on a World of ranks (C10Par); that the radius at an owned vertex equals the serial radius (all '
-    'edges at an owned vertex are stored) is tied and oracled (floor of the global shortest edge), not proved',
+    'floor IS modelled on a World of ranks (C10Par: SPD on every rank, radius at an owned vertex = serial radius); the '
+    'eigen-decomposition of the floored tensor is the same function of (tensor, radius) on every rank, so the owned '
+    'results are bit-identical to the one-rank run (oracled)',
     'Python oracle arithmetic (fractions, integer square root, 50-digit decimal Jacobi) is trusted',
 ]
